@@ -18,14 +18,16 @@ from .. import annetenv as E
 L = aclgen.lit
 STAR = {"t": "star"}
 MENU = [   # ACL rule menu (structure); children picked recursively
-    ([L("blk"), STAR], [([L("x"), STAR], []), ([L("y")], []), ([L("sub"), STAR], [([L("z"), STAR], [])])]),
-    ([L("blk"), L("1")], [([L("x"), L("1")], [])]),
+    ([L("blk"), STAR], [([L("x"), STAR], []), ([L("y")], []), ([L("sub"), STAR], [([L("z"), STAR], [])]), ([L("community"), {"t": "tilde"}], [])]),
+    ([L("blk"), L("1")], [([L("x"), L("1")], []), ([L("x"), STAR], []), ([L("community"), {"t": "tilde"}], [])]),     # the same child rule under two spellings of the parent
     ([L("a"), STAR], []),
     ([L("sub"), STAR], [([L("z"), STAR], [])]),
     ([L("interface"), STAR], [([L("mtu")], [])]),
 ]
 BLOCKS = [["blk", "1"], ["blk", "2"], ["sub", "1"], ["interface", "e1"]]
 ROWS = [["x", "1"], ["x", "2"], ["y"], ["y", "w1"], ["a", "1"], ["z", "1"], ["mtu"], ["blk", "1"], ["zz", "top"]]
+# a yield whose tuple holds a ParamsList (Junos-style bracketed list): it is ONE argument, rendered `[ C1 C2 ]`
+PLIST_ROWS = [(["community"], ["C1", "C2"]), (["community", "add"], ["C9"])]
 
 
 def rnd_acl(rnd, gen, menu=MENU, p=0.6):
@@ -52,7 +54,10 @@ def rnd_prog(rnd, n):
     prog, depth = [], 0
     for _ in range(n):
         x = rnd.random()
-        if x < 0.4:
+        if x < 0.05:
+            head, items = rnd.choice(PLIST_ROWS)
+            prog.append({"op": "y", "row": head + ["["] + items + ["]"], "plist": [head, items]})
+        elif x < 0.4:
             prog.append({"op": "y", "row": rnd.choice(ROWS)})
         elif x < 0.47:
             prog.append({"op": "ym", "rows": rnd.sample(ROWS, 2)})
